@@ -29,6 +29,9 @@ type CloneCase struct {
 	// XCleared: before cloning, the exported Extension flag is cleared while the entries stay in place (a caller
 	// suppresses the block for one send); the clone must carry the same entries
 	XCleared bool `json:"x_cleared,omitempty"`
+	// WithRaw (with FromWire): the deprecated exported Raw field holds the datagram the packet was decoded from (the old
+	// convention: Payload is a sub-slice of Raw); whatever Clone does with it, the two sides must not share it
+	WithRaw bool `json:"with_raw,omitempty"`
 	// Both: after cloning, the mutation is applied to BOTH sides (with different values):
 	// each side must then show its own change only
 	Both bool `json:"both"`
@@ -239,6 +242,10 @@ func checkC20(r *run, c *CloneCase) (CaseInfo, error) {
 		if err := orig.Unmarshal(b); err != nil {
 			return ci, failf("Unmarshal: %v", err)
 		}
+		if c.WithRaw {
+			orig.Raw = b
+			ci.class("raw-field-set")
+		}
 	} else {
 		p, err := m.packet()
 		if errors.Is(err, errAppbitsNotLegacy) {
@@ -352,6 +359,7 @@ func checkC20(r *run, c *CloneCase) (CaseInfo, error) {
 	if c.Side == "clone" {
 		target, other = cl, orig
 	}
+	rawBefore := hb(other.Raw)
 	if !c.mutate(target) {
 		ci.class("mutation-not-applicable")
 
@@ -360,6 +368,23 @@ func checkC20(r *run, c *CloneCase) (CaseInfo, error) {
 	ci.Nontrivial = true
 	if got := fullObs(other); got != before {
 		return ci, failf("mutation %q of the %s changed the other side:\n before: %s\n after:  %s", c.Mut, c.Side, before, got)
+	}
+	if c.WithRaw {
+		// write through the mutated side's Raw as well (it is that side's memory), then look at the other side's
+		for i := range target.Raw {
+			target.Raw[i] ^= 0xFF
+		}
+		if got := hb(other.Raw); got != rawBefore {
+			return ci, failf("mutation %q of the %s (and writing through its Raw field) changed what the other side's Raw field holds", c.Mut, c.Side)
+		}
+		for i := range target.Raw {
+			target.Raw[i] ^= 0xFF
+		}
+		if c.Side == "clone" {
+			if got := fullObs(other); got != before {
+				return ci, failf("writing through the clone's Raw field changed the original:\n before: %s\n after:  %s", before, got)
+			}
+		}
 	}
 	if got := fullObs(sibling); got != before {
 		return ci, failf("mutation %q of the %s changed a second clone of the original:\n before: %s\n after:  %s", c.Mut, c.Side, before, got)
@@ -420,6 +445,7 @@ func genCloneCase(t *rapid.T) *CloneCase {
 	c.FromWire = genBool(t, "fromwire")
 	c.DupID = c.FromWire && rapid.IntRange(0, 3).Draw(t, "dupid") == 0
 	c.XCleared = rapid.IntRange(0, 7).Draw(t, "xcleared") == 0
+	c.WithRaw = c.FromWire && rapid.IntRange(0, 3).Draw(t, "withraw") == 0
 	if genBool(t, "haspayloadoffset") {
 		c.PayloadOffset = rapid.SampledFrom([]int{12, 20, 1, -1, 65536}).Draw(t, "payloadoffset")
 	}
@@ -449,7 +475,7 @@ func genCloneCase(t *rapid.T) *CloneCase {
 	return c
 }
 
-const ruleC20 = "C01's well-formed packets (built through the API, or obtained from Unmarshal so that all slices alias one wire buffer (a quarter of those from an image that repeats an extension id); nil and empty payload/CSRC; the deprecated PayloadOffset header field set or not; one case in eight with the Extension flag cleared while the entries stay) x one mutation {flip payload byte, change CSRC entry, flip a byte of an extension value through the slice GetExtension returns, SetExtension new/replace, DelExtension, scalar field, padding size} applied to the original or to the clone, or a different new extension set on BOTH sides; optionally the extension list is first emptied again with DelExtension (length 0, spare capacity); oracle: clone observably equal (all fields, ids, values, Marshal bytes), untouched side unchanged after the mutation, as are a second clone of the original and a clone of the clone taken before it, and a clone of the untouched side taken after it; same for Header.Clone. Non-trivial = the mutation was applicable; distinct = FNV-64 of the JSON case"
+const ruleC20 = "C01's well-formed packets (built through the API, or obtained from Unmarshal so that all slices alias one wire buffer (a quarter of those from an image that repeats an extension id); nil and empty payload/CSRC; the deprecated PayloadOffset header field set or not; one case in eight with the Extension flag cleared while the entries stay; decoded packets sometimes with the deprecated Raw field pointing at their datagram) x one mutation {flip payload byte, change CSRC entry, flip a byte of an extension value through the slice GetExtension returns, SetExtension new/replace, DelExtension, scalar field, padding size} applied to the original or to the clone, or a different new extension set on BOTH sides; optionally the extension list is first emptied again with DelExtension (length 0, spare capacity); oracle: clone observably equal (all fields, ids, values, Marshal bytes), untouched side unchanged after the mutation, as are a second clone of the original and a clone of the clone taken before it, and a clone of the untouched side taken after it; same for Header.Clone. Non-trivial = the mutation was applicable; distinct = FNV-64 of the JSON case"
 
 func TestC20(t *testing.T) {
 	r := begin(t, "C20", "exploration", ruleC20)
